@@ -59,7 +59,10 @@ VAttrs(ev) ==
   LET want == ev[3] got == ev[4]
       G(k) == IF \E i \in DOMAIN got : got[i][1] = k THEN {got[CHOOSE i \in DOMAIN got : got[i][1] = k][2][j] :
                       j \in DOMAIN got[CHOOSE i \in DOMAIN got : got[i][1] = k][2]} ELSE {} IN
-  Ok(\A i \in DOMAIN want : G(want[i][1]) = {want[i][2][j] : j \in DOMAIN want[i][2]}, "escape-decodes-to-original")
+  IF ev[2] = "source-unchanged-by-export"
+  THEN Ok(Len(want) = Len(got) /\ \A i \in DOMAIN want : G(want[i][1]) = {want[i][2][j] : j \in DOMAIN want[i][2]},
+          "export-changed-the-qualifiers-of-its-source")
+  ELSE Ok(\A i \in DOMAIN want : G(want[i][1]) = {want[i][2][j] : j \in DOMAIN want[i][2]}, "escape-decodes-to-original")
 
 (* ["reparse", sourceProjection, parsedProjection, reexportIdentical, hasFasta, sequencesAttached, reexportIdenticalUpToIds] *)
 VReparse(ev) ==
